@@ -189,22 +189,28 @@ class Built:
             return cls
         if c['kind'] in ('strlike', 'userstring', 'ystring'):
             rejects = set(c['rejects'])
+            noargs = c.get('noargsexc')
+
+            def refuse(v):
+                if noargs:
+                    raise LookupError()
+                raise ValueError('rejected string %r' % (v,))
             if c['kind'] == 'strlike':
                 class S(*(bases or (str,))):
                     def __init__(self, v=''):
                         if str(v) in rejects:
-                            raise ValueError('rejected string %r' % (v,))
+                            refuse(v)
             elif c['kind'] == 'userstring':
                 class S(*(bases or (collections.UserString,))):
                     def __init__(self, v=''):
                         if str(v) in rejects:
-                            raise ValueError('rejected string %r' % (v,))
+                            refuse(v)
                         super().__init__(v)
             else:
                 class S(*(bases or (self.yatiml.String,))):
                     def __init__(self, v=''):
                         if str(v) in rejects:
-                            raise ValueError('rejected string %r' % (v,))
+                            refuse(v)
                         self._v = v
 
                     def __str__(self):
@@ -233,6 +239,11 @@ class Built:
             params.append(s)
         if c['extra']:
             params.append('_yatiml_extra: OrderedDict = None')
+        if c.get('kwonly'):
+            params.append('*')
+            for k in c['kwonly']:
+                kn, _, kd = k.partition('=')
+                params.append('%s: int%s' % (kn, ' = ' + kd if kd else ''))
         names = [p['name'] for p in c['params']]
         body = ['    def __init__(%s) -> None:' % ', '.join(params),
                 '        _kw = [%s]' % ', '.join(
@@ -244,9 +255,10 @@ class Built:
                         '_yatiml_extra is not None else OrderedDict()')
         body.append('        _LOG.append(("init", %r, type(self)._verif_name, '
                     '_kw))' % name)
-        if c['initraises']:
-            body.append('        raise ValueError("constructor of %s refuses")'
-                        % name)
+        if c['initraises'] and not c.get('kwonly'):
+            body.append('        raise %s' % (
+                'AssertionError()' if c.get('noargsexc') else
+                'ValueError("constructor of %s refuses")' % name))
         ya = c.get('yattrs') or []
         for n in names:
             body.append('        self.%s%s = %s' % ('_p_' if ya else '', n, n))
